@@ -407,6 +407,7 @@ func experiment(c *Ctx, dir string, sc scenario, cs *crashSpec, tag string) (*ob
 		}
 	}
 	a.Env = []string{"VERIF_CRASH_LOG=" + e.crashLog + ".2"}
+	daemonUp := make(chan struct{})
 	// `work results` of a finished resident asked while the restart is in progress: from the
 	// moment the control socket accepts, before the configuration has been processed.  It may be
 	// refused; if it streams, it streams exactly the output and ends.
@@ -449,8 +450,10 @@ func experiment(c *Ctx, dir string, sc scenario, cs *crashSpec, tag string) (*ob
 				if bytes.Contains(b, []byte("Pending at restart")) || bytes.Contains(b, []byte("Failed to restart")) {
 					break
 				}
-				if strings.Contains(a.Log(), "Initialization complete") && time.Since(t0) > 300*time.Millisecond {
-					break
+				select {
+				case <-daemonUp: // the new daemon has processed its configuration: the unit has been scanned
+					t0 = time.Now().Add(-time.Hour)
+				default:
 				}
 			}
 			release()
@@ -471,7 +474,9 @@ func experiment(c *Ctx, dir string, sc scenario, cs *crashSpec, tag string) (*ob
 			}
 		}()
 	}
-	if err := startReady(a); err != nil {
+	err = startReady(a)
+	close(daemonUp)
+	if err != nil {
 		o.AtRestart = view{State: -1, Err: "daemon does not come back: " + err.Error()}
 		return o, nil, daemonPid, nil
 	}
